@@ -129,3 +129,21 @@ def jobs(tier, seed):
             jobs.append({"harness": "codespan", "params": {"cfg": JS, "k": ks, "ticks": ticks, "pre": pre, "post": post},
                          "weight": 6, "cpu_cap": 900, "wall_cap": 1500})
     return jobs
+
+
+def thorough_extra(seed):
+    jobs = []
+    spec_nocr = {n: dict(NOCR) for n in "abcdefgh"}
+    spec2 = {"a": dict(NOCR), "b": dict(NOCR)}
+    _sharded(jobs, {"cfg": JS, "scaffold": free_doc(4, "\n")}, weight=30, spec=spec_nocr)
+    _sharded(jobs, {"cfg": CM, "scaffold": free_doc(3, "\n")}, weight=10, spec=spec_nocr)
+    for name, prefix in VERB_CTX:
+        jobs.append({"harness": "verbatim", "params": {"cfg": JS, "scaffold": [prefix, {"v": "a"}, {"v": "b"}], "spec": spec2, "name": name + "-eof"}, "weight": 4})
+        jobs.append({"harness": "verbatim", "params": {"cfg": CM, "scaffold": [prefix, {"v": "a"}, {"v": "b"}, "\n"], "spec": spec2, "name": name + "-cm"}, "weight": 4})
+    for ticks in (1, 2, 3):
+        for pre, post in (("", ""), ("a ", " b"), ("*x ", "*")):
+            jobs.append({"harness": "codespan", "params": {"cfg": JS, "k": 3, "ticks": ticks, "pre": pre, "post": post}, "weight": 20})
+    for j in jobs:
+        j["cpu_cap"] = 3000
+        j["wall_cap"] = 4000
+    return jobs
